@@ -321,7 +321,7 @@ def _max_fanout(prog) -> int:
             v = alias[v]
         return v
     for o in prog["ops"]:
-        if (o["op"] == "dropout" and o["kw"].get("p") == 0.0) or o["op"] == "iadd":
+        if (o["op"] == "dropout" and (o["kw"].get("p") == 0.0 or not o["kw"].get("training", True))) or o["op"] == "iadd":
             alias[o["out"]] = o["in"][0]
     cnt: Dict[str, int] = {}
     for o in prog["ops"]:
